@@ -47,7 +47,8 @@ macro "optwire" : tactic =>
         Gen.storeoptsISFLOptN, Gen.storeoptsISFLOptClientCert, Gen.storeoptsISFLOptClientKey,
         Gen.storeoptsISFLOptCACert, Gen.storeoptsISFLOptTrustInsecure, Gen.storeoptsISFLOptHTTPAuth, Gen.storeoptsISFLOptHTTPCookie,
         Gen.storeoptsISFLOptTimeout, Gen.storeoptsISFLOptErrorRetry, Gen.storeoptsISFLOptErrorRetryBaseInterval,
-        Gen.storeoptsISFLOptSkipVerify, Gen.storeoptsISFLOptUncompressed] <;> (repeat' split) <;> simp_all))
+        Gen.storeoptsISFLOptSkipVerify, Gen.storeoptsISFLOptUncompressed] <;> first | done | grind)
+    | grind)
 
 /-- `storeFromLocation`: the options every backend gets are `MergedWith` of the entry looked up for the function's own
     `location` argument — for verification (C03) … -/
